@@ -45,8 +45,12 @@ fn poked<T: Sc>(mut m: DMatrix<T>, poke: &Poke<T>, which: Option<usize>) -> DMat
     m
 }
 
-fn emit_tables_poked<T: Sc>(out: &mut Out, recipe: &Recipe, alpha: &[T], poke: &Poke<T>) {
-    out.line(&format!(" phi ok {}", mat_str(&poked(recipe.phi::<T>(alpha), poke, None))));
+fn emit_tables_poked<T: Sc>(out: &mut Out, recipe: &Recipe, alpha: &[T], poke: &Poke<T>, w: &Option<Vec<T>>) {
+    let phi = poked(recipe.phi::<T>(alpha), poke, None);
+    if crate::state::svd_breaks(&phi, w) {
+        out.line(" svdq nonfinite");
+    }
+    out.line(&format!(" phi ok {}", mat_str(&phi)));
     for k in 0..recipe.p() {
         out.line(&format!(" d {} ok {}", k, mat_str(&poked(recipe.dphi::<T>(alpha, k), poke, Some(k)))));
     }
@@ -101,7 +105,7 @@ pub fn emit_robust_case<T: Sc>(
     emit_inputs(out, c);
     out.line(&cfg.describe::<T>());
     out.line(&format!("step build {}", slice_str(&c.init)));
-    emit_tables_poked(out, &c.recipe, &c.init, &poke);
+    emit_tables_poked(out, &c.recipe, &c.init, &poke, &c.w);
     let mut prob = match build_guarded(c, c.init.clone(), 5, poke) {
         None => {
             out.line("outcome build hang");
@@ -134,7 +138,7 @@ pub fn emit_robust_case<T: Sc>(
     }
     if let Some(a2) = second {
         out.line(&format!("step set {}", slice_str(&a2)));
-        emit_tables_poked(out, &c.recipe, &a2, &poke);
+        emit_tables_poked(out, &c.recipe, &a2, &poke, &c.w);
         let av = DVector::from_vec(a2);
         let r = with_deadline(5, move || {
             prob.set(&av);
@@ -275,7 +279,31 @@ fn one<T: Sc>(out: &mut Out, rng: &mut Rng, i: usize, thorough: bool) {
     };
     let what: &str;
     let mut second: Option<Vec<T>> = None;
+    let mut kind = kind;
+    if kind == 7 {
+        // finite basis matrices at the edge of the floating point range: as starting point of the
+        // fit or applied after an ordinary build
+        let (recipe, ordinary, edge) = crate::gen::range_edge_family(rng, T::WIDTH == 32);
+        let tr: Vec<T> = ordinary.iter().map(|v| T::of(*v)).collect();
+        let phi = recipe.phi::<T>(&tr);
+        let m = recipe.m();
+        let coef = DVector::from_iterator(m, (0..m).map(|_| T::of(rng.uniform(0.5, 3.0))));
+        let col = &phi * coef;
+        c.y = DMatrix::from_iterator(recipe.n(), 1, col.iter().map(|v| *v + T::of(0.01 * rng.normal())));
+        c.recipe = recipe;
+        let e: Vec<T> = edge.iter().map(|v| T::of(*v)).collect();
+        if rng.chance(0.5) {
+            c.init = e;
+        } else {
+            c.init = tr.iter().map(|v| *v * T::of(1.0625)).collect();
+            second = Some(e);
+        }
+        kind = 70;
+    }
     match kind {
+        70 => {
+            what = "range-edge";
+        }
         0 => {
             what = "alpha-special";
             let k = rng.below(c.init.len());
